@@ -6,7 +6,7 @@ overlay that asked for anonymity, one plain toy overlay) all sit on ``TunnelEndp
 real tunnel nodes (relay R, exit X with PEER_FLAG_EXIT_IPV8, exit Y without it) serve the circuits.  Every event
 is a macro step run to network quiescence; time passes only in the explicit "tick" event (5 s).
 
-Oracle (written from the statement, reads the wire and the arguments of ``send_data``, never the routing code):
+Oracle (written from the statement; it reads the wire and the arguments of ``send_data``, never the routing code):
  * N's raw socket never carries a datagram that starts with the anonymized overlay's prefix while that overlay
    asks for anonymity;
  * every ``TunnelCommunity.send_data`` that carries such a datagram names a circuit that is READY, of the
@@ -14,12 +14,13 @@ Oracle (written from the statement, reads the wire and the arguments of ``send_d
    overlay produced to the destination the overlay asked for;
  * the hold queue never exceeds 100 entries and only ever holds datagrams of the anonymized overlay;
  * every datagram of the plain overlay leaves N's raw socket exactly once, byte-identical, to the requested
-   destination, and never enters the tunnel or the queue.
+   destination, and never enters the tunnel or the queue (also probed after *every* transition).
 """
 from __future__ import annotations
 
 import os
 import random
+import sys
 import time
 from asyncio import events
 
@@ -45,7 +46,7 @@ BURST = 101
 TICK = 5.0                   # == TunnelSettings.remove_tunnel_delay
 DEST_ANON = UDPv4Address("9.9.9.9", 99)
 DEST_PLAIN = UDPv4Address("8.8.8.8", 88)
-ROLES = {"R": RELAY, "X": EXIT_ALL, "Y": EXIT_BT}     # X exits IPv8 traffic, Y does not
+ROLES = {"X": EXIT_ALL, "Y": EXIT_BT}     # X exits IPv8 traffic, Y does not; both also relay (2-hop circuits)
 
 
 @vp_compile
@@ -78,16 +79,16 @@ class PlainOverlay(_ToyOverlay):
 
 
 # ------------------------------------------------------------------------------------------------
-# reference: what the statement allows, tracked from the events alone
+# reference: what the statement lets the harness know, tracked from the events alone
 # ------------------------------------------------------------------------------------------------
 
 class Ref:
     def __init__(self) -> None:
-        self.anon_asked = True        # AnonOverlay was created with settings.anonymize = True
+        self.anon_asked = True                    # AnonOverlay was created with settings.anonymize = True
         self.anon_packets: set[bytes] = set()     # everything the anonymized overlay ever produced
         self.plain_packets: set[bytes] = set()
-        self.fates = {"tunnelled": 0, "queued_now": 0, "dropped_or_pending": 0, "raw_while_not_anonymous": 0,
-                      "plain_raw": 0}
+        self.fates = {"anon_tunnelled": 0, "anon_raw_while_not_anonymous": 0, "plain_raw": 0, "anon_produced": 0,
+                      "anon_exited_at": {}}
 
 
 # ------------------------------------------------------------------------------------------------
@@ -106,6 +107,11 @@ class C07World(simnet.World):
         self.raw = n.endpoint                          # the socket: what leaves here leaves from N's own address
         self.tep = TunnelEndpoint(self.raw)
         self.tc = self.ov["N"] = n.add_overlay(TunnelCommunity, self._tunnel_settings(RELAY), endpoint=self.tep)
+        # TunnelEndpoint does not forward remove_listener, so on this endpoint the TunnelCommunity stays registered
+        # next to its crypto endpoint and would also interpret every *still encrypted* cell (a C11 matter).  That
+        # makes control flow depend on ciphertext bytes the Rust RNG picks; the receive table is normalised to what
+        # setup_tunnels() intends.  The send path (the subject of C07) is untouched.
+        self.raw.remove_listener(self.tc)
         anon_settings = AnonOverlay.settings_class()
         anon_settings.anonymize = True
         self.anon = n.add_overlay(AnonOverlay, anon_settings, endpoint=self.tep)
@@ -121,15 +127,15 @@ class C07World(simnet.World):
                 self.nodes[a].run(self.ov[a].walk_to, self.nodes[b].address)
         self.flush()
 
+        self.a_prefix, self.p_prefix, self.t_prefix = self.anon.get_prefix(), self.plain.get_prefix(), self.tc.get_prefix()
         self.ref = Ref()
-        self.seq = 0
-        self.calls: list[dict] = []                    # send_data calls of the current event
+        self.marker = 0
+        self.calls: list[dict] = []                    # send_data calls of the current step
         self.wire_mark = len(self.wire_log)
         self.out_mark = len(self.loop.outside_log)
         self.ctx_before = ""
         self.asked_before = True
         self.plain_now: list[bytes] = []
-        self.anon_now: list[bytes] = []
         self.max_queue = 0
         self._wrap_send_data()
 
@@ -148,7 +154,7 @@ class C07World(simnet.World):
         def send_data(target, circuit_id, dest_address, source_address, data):  # noqa: ANN001, ANN202
             c = tc.circuits.get(circuit_id)
             self.calls.append({
-                "target": tuple(target), "circuit_id": circuit_id, "dest": tuple(dest_address), "data": bytes(data),
+                "target": tuple(target), "dest": tuple(dest_address), "data": bytes(data),
                 "configured_hops": self.tep.hops,
                 "circuit": None if c is None else self.circuit_view(c),
                 "first_hop": None if c is None or not c.hops else tuple(c.hop.address),
@@ -168,42 +174,39 @@ class C07World(simnet.World):
                 "exit": exit_name, "exit_true_flags": sorted(self.flags.get(exit_name, ())) if exit_name else [],
                 "first": self.node_of(hops[0]) if hops else None}
 
-    # -- reference view of the routing situation (for violation keys and enabling only) ---------------
+    # -- coarse description of the routing situation (violation keys and event enabling only) ----------
     def situation(self) -> str:
+        """detached | no-suitable-circuit | suitable-not-ready | suitable-ready (judged on the first suitable circuit)."""
         if self.tep.tunnel_community is None:
             return "detached"
         want = self.tep.hops
         match = [c for c in self.tc.circuits.values() if c.goal_hops == want and c.ctype == "DATA"
                  and PEER_FLAG_EXIT_IPV8 in c.exit_flags]
         if not match:
-            others = [c for c in self.tc.circuits.values() if c.state == CIRCUIT_STATE_READY]
-            return "no-suitable-circuit" + ("(other-ready)" if others else "")
-        states = [c.state for c in match]
-        if CIRCUIT_STATE_READY in states:
-            return "suitable-ready" if states[0] == CIRCUIT_STATE_READY else "suitable-ready-behind-" + states[0].lower()
-        return "suitable-" + states[0].lower()
+            return "no-suitable-circuit"
+        return "suitable-ready" if match[0].state == CIRCUIT_STATE_READY else "suitable-not-ready"
 
-    # -- events -----------------------------------------------------------------------------------------
+    # -- steps ------------------------------------------------------------------------------------------
     def begin(self) -> None:
         self.calls = []
         self.wire_mark = len(self.wire_log)
         self.out_mark = len(self.loop.outside_log)
         self.ctx_before = self.situation()
         self.asked_before = self.ref.anon_asked
-        self.plain_now, self.anon_now = [], []
+        self.plain_now = []
         self.max_queue = len(self.tep.send_queue)
 
     def send_anon(self, count: int = 1) -> None:
         for _ in range(count):
-            self.seq += 1
-            p = self.n.run(self.anon.send_marker, DEST_ANON, self.seq)
-            self.anon_now.append(p)
+            self.marker += 1
+            p = self.n.run(self.anon.send_marker, DEST_ANON, self.marker)
             self.ref.anon_packets.add(p)
+            self.ref.fates["anon_produced"] += 1
             self.max_queue = max(self.max_queue, len(self.tep.send_queue))
 
     def send_plain(self) -> None:
-        self.seq += 1
-        p = self.n.run(self.plain.send_marker, DEST_PLAIN, self.seq)
+        self.marker += 1
+        p = self.n.run(self.plain.send_marker, DEST_PLAIN, self.marker)
         self.plain_now.append(p)
         self.ref.plain_packets.add(p)
 
@@ -213,9 +216,8 @@ class C07World(simnet.World):
         return p
 
     def build(self, exit_name: str, hops: int) -> None:
-        """Start a circuit of `hops` hops that must end in `exit_name` and run the real handshake to quiescence."""
+        """Start a circuit of `hops` hops that must end in `exit_name`; the caller runs the handshake to quiescence."""
         self.n.run(self.tc.create_circuit, hops, required_exit=self.peer_of(exit_name))
-        self.flush()
 
     def removable(self) -> list:
         return [c for c in self.tc.circuits.values() if c.state != CIRCUIT_STATE_CLOSING]
@@ -224,10 +226,6 @@ class C07World(simnet.World):
         cs = self.removable()
         c = cs[0] if which == "first" else cs[-1]
         self.n.run(self.tc.remove_circuit, c.circuit_id, "c07", destroy=1)
-        self.flush()
-
-
-PREFIX_LABELS = ("tunnel", "anon", "plain")
 
 
 class _Forked:
@@ -242,7 +240,7 @@ class Model(core.BfsModel):
     BfsModel over C07World.  core.bfs rebuilds the world of a history once per enabled event; because a world costs
     ~20 ms to set up and an event ~1 ms, `fork=True` builds each history once and runs every successor event in a
     fork()ed copy of the process (apply + digest + oracle happen in the child, the results come back over a pipe).
-    The computation is the same as with plain replay (`fork=False`, used by --replay and the self-check).
+    The computation is the same as with plain replay (`fork=False`, used by --replay and by the self-check in run()).
     """
 
     def __init__(self, seed: int, alphabet: list, max_circuits: int = 99, fork: bool = False) -> None:
@@ -272,12 +270,16 @@ class Model(core.BfsModel):
             return self.replay_build(hist)
         if self._cached is not None and self._cached_hist == hist:
             return _Forked(self._cached, hist)
-        if self._cached is not None:
-            self._cached.close()
-            self._cached = None
+        self.drop_cache()
         self._cached = self.replay_build(hist)
         self._cached_hist = hist
         return self._cached
+
+    def drop_cache(self) -> None:
+        if self._cached is not None:
+            self._cached.close()
+            self._cached = None
+            self._cached_hist = None
 
     def dispose(self, w) -> None:  # noqa: ANN001
         if isinstance(w, C07World) and w is not self._cached:
@@ -329,8 +331,7 @@ class Model(core.BfsModel):
                 except Exception:  # noqa: BLE001
                     import traceback
                     res["check_exc"] = traceback.format_exc()[-900:]
-                data = pickle.dumps(res)
-                view = memoryview(data)
+                view = memoryview(pickle.dumps(res))
                 while view:
                     view = view[os.write(wfd, view):]
             except BaseException:  # noqa: BLE001
@@ -365,12 +366,18 @@ class Model(core.BfsModel):
                 continue
             if k == "attach" and attached and w.tep.hops == ev[1]:
                 continue
-            if k == "burst" and attached and w.ref.anon_asked and w.situation().startswith("no-suitable-circuit"):
-                # each of the 101 sends would start a circuit of its own (the library only recognises a circuit
-                # as "coming" once its first hop answered); the single send-anon event covers this situation
+            if k == "burst" and not self.burst_ok(w):
                 continue
             out.append(i)
         return out
+
+    @staticmethod
+    def burst_ok(w: C07World) -> bool:
+        # With the tunnel community attached and no suitable circuit in sight, each of the 101 sends starts a circuit
+        # of its own (the library only recognises a circuit as "coming" once its first hop answered); that situation
+        # is covered by the single send-anon event, the burst is skipped there to keep worlds small.
+        return not (w.tep.tunnel_community is not None and w.ref.anon_asked
+                    and w.situation() == "no-suitable-circuit")
 
     # -- transitions ------------------------------------------------------------------------------------
     def _apply(self, w: C07World, ev):  # noqa: ANN001, ANN201
@@ -394,59 +401,48 @@ class Model(core.BfsModel):
             w.tep.set_tunnel_community(w.tc, hops=ev[1])
         elif k == "toggle":
             w.ref.anon_asked = not w.ref.anon_asked
-            w.tep.set_anonymity(w.anon.get_prefix(), w.ref.anon_asked)
+            w.tep.set_anonymity(w.a_prefix, w.ref.anon_asked)
         else:
             raise ValueError(ev)
         w.flush()
         return self.observe(w)
 
     # -- observation (also the outcome hash): kinds and counts, never ciphertext ------------------------
-    def label(self, w: C07World, data: bytes) -> str:
+    @staticmethod
+    def label(w: C07World, data: bytes) -> str:
         p = data[:22]
-        if p == w.anon.get_prefix():
-            return "anon"
-        if p == w.plain.get_prefix():
-            return "plain"
-        if p == w.tc.get_prefix():
-            return "tunnel"
-        return "other"
+        return "anon" if p == w.a_prefix else "plain" if p == w.p_prefix else "tunnel" if p == w.t_prefix else "other"
 
     def observe(self, w: C07World) -> tuple:
-        raw = [dg for dg in w.wire_log[w.wire_mark:] if dg.sender is w.raw]
-        raw_kinds: dict[str, int] = {}
-        for dg in raw:
-            lab = self.label(w, dg.data)
-            raw_kinds[lab] = raw_kinds.get(lab, 0) + 1
-        exited = [(t.owner.name if t.owner else None, self.label(w, d)) for t, d, a in w.loop.outside_log[w.out_mark:]]
-        ex_kinds: dict[tuple, int] = {}
-        for e in exited:
-            ex_kinds[e] = ex_kinds.get(e, 0) + 1
-        calls = [(self.label(w, c["data"]), None if c["circuit"] is None else
-                  (c["circuit"]["state"], c["circuit"]["goal_hops"], c["circuit"]["exit"])) for c in w.calls]
-        call_kinds: dict[tuple, int] = {}
-        for c in calls:
-            call_kinds[c] = call_kinds.get(c, 0) + 1
-        return (w.ctx_before, w.asked_before, tuple(sorted(raw_kinds.items())), tuple(sorted(call_kinds.items(), key=repr)),
-                tuple(sorted(ex_kinds.items(), key=repr)), len(w.tep.send_queue), w.max_queue)
+        def tally(items) -> tuple:  # noqa: ANN001
+            d: dict = {}
+            for i in items:
+                d[i] = d.get(i, 0) + 1
+            return tuple(sorted(d.items(), key=repr))
+
+        raw = tally(self.label(w, dg.data) for dg in w.wire_log[w.wire_mark:] if dg.sender is w.raw)
+        exited = tally((t.owner.name if t.owner else None, self.label(w, d)) for t, d, a in w.loop.outside_log[w.out_mark:])
+        calls = tally((self.label(w, c["data"]), None if c["circuit"] is None else
+                       (c["circuit"]["state"], c["circuit"]["goal_hops"], c["circuit"]["exit"])) for c in w.calls)
+        return (w.ctx_before, w.asked_before, raw, calls, exited, len(w.tep.send_queue), w.max_queue)
 
     # -- digest -----------------------------------------------------------------------------------------
     def _digest(self, w: C07World):  # noqa: ANN201
         now = time.time()
         tep, tc = w.tep, w.tc
-        labels = {w.tc.get_prefix(): "tunnel", w.anon.get_prefix(): "anon", w.plain.get_prefix(): "plain"}
+        labels = {w.t_prefix: "tunnel", w.a_prefix: "anon", w.p_prefix: "plain"}
         settings = tuple(sorted((labels.get(k, k.hex()), v) for k, v in tep.settings.items()))
         circuits = []
         for c in tc.circuits.values():      # dict order: find_circuits()[0] depends on it
             v = w.circuit_view(c)
             circuits.append((v["state"], c.ctype, v["goal_hops"], v["hops"], tuple(v["exit_flags"]), v["exit"], v["first"],
-                             c.unverified_hop is not None, c.required_exit is not None and w.by_key.get(
-                                 c.required_exit.public_key.key_to_bin()),
-                             round(now - c.last_activity, 3),
-                             tc.request_cache.has(RetryRequestCache, c.circuit_id)))
-        remote = []
+                             c.unverified_hop is not None,
+                             c.required_exit is not None and w.by_key.get(c.required_exit.public_key.key_to_bin()),
+                             round(now - c.last_activity, 3), tc.request_cache.has(RetryRequestCache, c.circuit_id)))
+        tables = []
         for name in ("N", *ROLES):
             o = w.ov[name]
-            remote.append((name,
+            tables.append((name,
                            tuple(sorted((round(now - e.last_activity, 3), w.node_of(e.hop)) for e in o.exit_sockets.values())),
                            tuple(sorted((round(now - r.last_activity, 3), r.direction, w.node_of(r.hop))
                                         for r in o.relay_from_to.values())),
@@ -454,61 +450,58 @@ class Model(core.BfsModel):
                                         for p, f in o.candidates.items())),
                            len(o.request_cache._identifiers)))  # noqa: SLF001
         timers = tuple(sorted(round(h._when - w.loop.time(), 3) for h in w.loop._scheduled if not h._cancelled))  # noqa: SLF001
-        queue = tuple((labels.get(p[:22], "other"), tuple(a)) for a, p in tep.send_queue)
-        qsum = (len(queue), tuple(sorted(set(queue))))
-        return (settings, tep.tunnel_community is tc, tep.tunnel_community is None, tep.hops, qsum, tuple(circuits),
-                tuple(remote), timers, len(w.inflight), w.ref.anon_asked)
+        queue = [(labels.get(p[:22], "other"), tuple(a)) for a, p in tep.send_queue]
+        return (settings, tep.tunnel_community is tc, tep.tunnel_community is None, tep.hops,
+                (len(queue), tuple(sorted(set(queue)))), tuple(circuits), tuple(tables), timers, len(w.inflight),
+                w.ref.anon_asked)
 
     # -- oracle -----------------------------------------------------------------------------------------
-    def _check(self, w: C07World, hist, ev, obs) -> list:  # noqa: ANN001
+    def judge(self, w: C07World, what: str) -> list:
+        """Judge everything N did since w.begin() against the statement.  `what` names the step for the messages."""
         v: list = []
         ref = w.ref
-        a_prefix, p_prefix = w.anon.get_prefix(), w.plain.get_prefix()
-        asked = w.asked_before if ev[0] != "toggle" else False   # nothing is sent by the toggle itself
         ctx = w.ctx_before
+        asked = w.asked_before and ref.anon_asked       # the overlay asked for anonymity during the whole step
         raw = [dg for dg in w.wire_log[w.wire_mark:] if dg.sender is w.raw]
 
-        # 1. the raw socket of N
+        # 1. N's own socket
         plain_seen: dict[bytes, int] = {}
         for dg in raw:
             pre = dg.data[:22]
-            if pre == a_prefix:
-                if w.asked_before and ref.anon_asked:
-                    v.append((f"raw-leak|{ctx}|via:{ev[0]}", f"N's own socket sent a datagram of the anonymized overlay to "
-                              f"{dg.dst} ({len(dg.data)} bytes, known packet: {dg.data in ref.anon_packets}) while the "
-                              f"overlay asks for anonymity; situation before the event: {ctx}; event {ev!r}"))
+            if pre == w.a_prefix:
+                if asked:
+                    v.append((f"raw-leak|{ctx}", f"N's own socket sent a datagram of the anonymized overlay to {dg.dst} "
+                              f"({len(dg.data)} bytes; produced by the overlay: {dg.data in ref.anon_packets}) while the "
+                              f"overlay asks for anonymity; situation before the step: {ctx}; step {what}"))
                 else:
-                    ref.fates["raw_while_not_anonymous"] += 1
-            elif pre == p_prefix:
+                    ref.fates["anon_raw_while_not_anonymous"] += 1
+            elif pre == w.p_prefix:
                 plain_seen[dg.data] = plain_seen.get(dg.data, 0) + 1
                 if dg.data not in ref.plain_packets:
-                    v.append((f"plain-altered|{ctx}", f"raw datagram with the plain overlay's prefix that the overlay "
-                              f"never produced ({len(dg.data)} bytes to {dg.dst}); event {ev!r}"))
+                    v.append(("plain-affected:altered", f"raw datagram with the plain overlay's prefix that the overlay never "
+                              f"produced ({len(dg.data)} bytes to {dg.dst}); step {what}"))
                 elif tuple(dg.dst) != tuple(DEST_PLAIN):
-                    v.append((f"plain-misrouted|{ctx}", f"plain overlay datagram sent to {dg.dst}, asked {DEST_PLAIN}"))
-        del asked
-        # 4. plain overlay unaffected
+                    v.append(("plain-affected:misrouted", f"plain overlay datagram sent to {dg.dst}, asked {DEST_PLAIN}; "
+                              f"step {what}"))
+        # 4. the plain overlay is unaffected
         for p in w.plain_now:
             n = plain_seen.get(p, 0)
-            if n != 1:
-                where = []
-                if any(c["data"] == p for c in w.calls):
-                    where.append("handed to send_data")
-                if any(q == p for _, q in w.tep.send_queue):
-                    where.append("sitting in the hold queue")
-                v.append((f"plain-not-raw|{ctx}|seen:{min(n, 2)}", f"the plain overlay's datagram left N's raw socket {n} "
-                          f"times (expected exactly once, byte-identical){'; it was ' + ' and '.join(where) if where else ''}"
-                          f"; situation {ctx}; event {ev!r}"))
-            else:
+            if n == 1:
                 ref.fates["plain_raw"] += 1
+                continue
+            fate = ("duplicated" if n > 1 else "tunnelled" if any(c["data"] == p for c in w.calls) else
+                    "queued" if any(q == p for _, q in w.tep.send_queue) else "vanished")
+            v.append((f"plain-affected:{fate}", f"the plain overlay's datagram left N's raw socket {n} times (expected exactly "
+                      f"once, byte-identical): {fate}; situation {ctx}; step {what}"))
+        for c in w.calls:
+            if c["data"][:22] == w.p_prefix and c["data"] not in w.plain_now:
+                v.append(("plain-affected:tunnelled", f"send_data was called with an earlier datagram of the plain overlay; "
+                          f"step {what}"))
 
         # 2. tunnel data
         for c in w.calls:
             pre = c["data"][:22]
-            if pre == p_prefix:
-                v.append((f"plain-tunnelled|{ctx}", f"send_data was called with a datagram of the plain overlay; {ev!r}"))
-                continue
-            if pre != a_prefix:
+            if pre != w.a_prefix:
                 continue
             cv = c["circuit"]
             why = None
@@ -529,23 +522,34 @@ class Model(core.BfsModel):
             if why:
                 v.append((f"tunnel-data:{why}|{ctx}", f"send_data for a datagram of the anonymized overlay named circuit "
                           f"{cv} (configured length {c['configured_hops']}, target {c['target']}, dest {c['dest']}): {why}; "
-                          f"situation before the event: {ctx}; event {ev!r}"))
+                          f"situation before the step: {ctx}; step {what}"))
             else:
-                ref.fates["tunnelled"] += 1
+                ref.fates["anon_tunnelled"] += 1
 
         # 3. the hold queue
-        if w.max_queue > QUEUE_BOUND or len(w.tep.send_queue) > QUEUE_BOUND:
-            v.append((f"queue-unbounded|{ctx}", f"hold queue reached {max(w.max_queue, len(w.tep.send_queue))} entries "
-                      f"(bound {QUEUE_BOUND}); event {ev!r}"))
-        foreign = [q for _, q in w.tep.send_queue if q[:22] != a_prefix]
+        reached = max(w.max_queue, len(w.tep.send_queue))
+        if reached > QUEUE_BOUND:
+            v.append(("queue-unbounded", f"hold queue reached {reached} entries (bound {QUEUE_BOUND}); step {what}"))
+        foreign = [q for _, q in w.tep.send_queue if q[:22] != w.a_prefix and q not in ref.plain_packets]
         if foreign:
-            v.append((f"queue-foreign|{ctx}", f"{len(foreign)} queued datagrams do not belong to the anonymized overlay "
-                      f"(first prefix {foreign[0][:22].hex()}); event {ev!r}"))
-        ref.fates["queued_now"] = len(w.tep.send_queue)
-        if w.loop.exceptions:
-            e = w.loop.exceptions[0]
-            v.append((f"loop-exception|{type(e.get('exception')).__name__}", f"asyncio exception handler saw "
-                      f"{e.get('message')!r} {e.get('exception')!r} after {ev!r}"))
+            v.append(("queue-foreign", f"{len(foreign)} queued datagrams belong to neither toy overlay (first prefix "
+                      f"{foreign[0][:22].hex()}); step {what}"))
+        for t, d, _ in w.loop.outside_log[w.out_mark:]:
+            if d[:22] == w.a_prefix:
+                who = t.owner.name if t.owner else "?"
+                ref.fates["anon_exited_at"][who] = ref.fates["anon_exited_at"].get(who, 0) + 1
+        return v
+
+    def _check(self, w: C07World, hist, ev, obs, probe: bool = True) -> list:  # noqa: ANN001
+        v = self.judge(w, repr(ev))
+        if not probe:
+            return v
+        # Probe (the digest was taken before, the world is thrown away after): a send by the plain overlay in the state
+        # just reached.  It is a self-loop of the state graph, so it is evaluated here instead of costing an event.
+        w.begin()
+        w.send_plain()
+        w.flush()
+        v.extend(self.judge(w, f"plain-send probe after {ev!r}"))
         return v
 
 
@@ -557,11 +561,147 @@ FULL = [("sa",), ("sp",), ("burst",),
         ("build", "X", 1), ("build", "X", 2), ("build", "Y", 1), ("build", "Y", 2),
         ("rm", "first"), ("rm", "last"), ("tick",),
         ("detach",), ("attach", 1), ("attach", 2), ("toggle",)]
+CORE = [("sa",), ("burst",), ("build", "X", 1), ("build", "Y", 1), ("build", "X", 2),
+        ("rm", "first"), ("tick",), ("detach",), ("attach", 2), ("toggle",)]
+
+WITNESSES = [
+    [("sa",), ("sa",)],
+    [("build", "Y", 1), ("sa",), ("sa",)],
+    [("build", "X", 2), ("sa",), ("sa",)],
+    [("build", "X", 2), ("attach", 2), ("sa",)],
+    [("build", "X", 1), ("rm", "first"), ("sa",), ("tick",), ("sa",), ("sa",)],
+    [("build", "X", 1), ("rm", "first"), ("burst",)],
+    [("build", "X", 1), ("burst",)],
+    [("detach",), ("sa",), ("attach", 1), ("sa",)],
+    [("toggle",), ("sa",), ("toggle",), ("sa",)],
+    [("sp",)],
+]
+
+
+def configs(ctx: core.Ctx) -> list[tuple[str, list, int, int]]:
+    """(name, alphabet, depth, max circuits started by build events)."""
+    cfg = [("core", CORE, 9, 2), ("full", FULL, 6, 3)] if ctx.thorough else [("core", CORE, 7, 2), ("full", FULL, 4, 3)]
+    cap = int(os.environ.get("C07_MAX_DEPTH", "0") or 0)     # screening aid (mutant runs); reported as not exhaustive
+    return [(n, a, min(d, cap) if cap else d, mc) for n, a, d, mc in cfg]
+
+
+def run_history(seed: int, history: list) -> tuple[list, list, dict]:
+    """Plain replay of one history with the oracle after every step: (violations, observations, fates)."""
+    m = Model(seed, FULL)
+    w = m.initial()
+    viol, obs_log = [], []
+    try:
+        for i, ev in enumerate(history):
+            ev = tuple(ev)
+            obs = m._apply(w, ev)  # noqa: SLF001
+            obs_log.append(obs)
+            # intermediate steps are judged without the probe so that the world is exactly the one the search replayed
+            for k, what in m._check(w, history[:i], ev, obs, probe=i == len(history) - 1):  # noqa: SLF001
+                viol.append((k, f"[step {i + 1}/{len(history)}] {what}"))
+        return viol, obs_log, w.ref.fates
+    finally:
+        w.close()
+
+
+def self_check(model: Model, histories: list) -> None:
+    """The fork shortcut must give exactly what a plain replay gives (digest and observation)."""
+    plain = Model(model.seed, model.alphabet, model.max_circuits, fork=False)
+    index = {e: i for i, e in enumerate(model.alphabet)}
+    for h in histories:
+        if not h:
+            continue
+        idx = tuple(index[tuple(e)] for e in h)
+        w = plain.replay_build(idx[:-1])
+        obs_a = plain._apply(w, model.alphabet[idx[-1]])  # noqa: SLF001
+        dig_a = plain._digest(w)  # noqa: SLF001
+        w.close()
+        model.drop_cache()
+        model.build(idx[:-1])
+        proxy = model.build(idx[:-1])
+        obs_b = model.apply(proxy, model.alphabet[idx[-1]])
+        dig_b = model.digest(proxy)
+        model.drop_cache()
+        if obs_a != obs_b or dig_a != dig_b:
+            core.eprint(f"C07: forked execution and plain replay disagree on {h}:\n {dig_a}\n {dig_b}\n {obs_a}\n {obs_b}")
+            sys.exit(2)
 
 
 def run(ctx: core.Ctx) -> core.Report:
-    raise NotImplementedError
+    seed = ctx.seed % 12
+    total_states = total_trans = outcomes = 0
+    runs, violations, samples = [], [], []
+    exhaustive = True
+    for name, alphabet, depth, max_circuits in configs(ctx):
+        model = Model(seed, alphabet, max_circuits, fork=True)
+        r = core.bfs(model, depth, ctx.jobs, chunk=4)
+        model.drop_cache()
+        self_check(model, r["samples"])
+        total_states += r["states"]
+        total_trans += r["transitions"]
+        outcomes += r["distinct_outcomes"]
+        exhaustive &= not r["capped"] and not os.environ.get("C07_MAX_DEPTH")
+        runs.append({"name": name, "alphabet": [list(e) for e in alphabet], "depth": r["completed_depth"],
+                     "max_circuits_started_by_build_events": max_circuits, "states": r["states"],
+                     "transitions": r["transitions"], "levels": r["levels"], "fixpoint": r["fixpoint"],
+                     "distinct_observations": r["distinct_outcomes"]})
+        samples.extend(r["samples"][:1])
+        for v in r["violations"]:
+            v.replay = {"seed": seed, "history": v.replay["history"]}
+            violations.append(v)
+    # vacuity witnesses: scripted histories whose observations show that every class of behaviour really occurs
+    witnesses = []
+    fates_total: dict = {}
+    for h in WITNESSES:
+        viol, obs_log, fates = run_history(seed, h)
+        witnesses.append({"history": h, "last_observation": obs_log[-1], "fates": fates})
+        for k, x in fates.items():
+            if isinstance(x, dict):
+                d = fates_total.setdefault(k, {})
+                for kk, n in x.items():
+                    d[kk] = d.get(kk, 0) + n
+            else:
+                fates_total[k] = fates_total.get(k, 0) + x
+        for k, what in viol:
+            violations.append(core.Violation(k, what, {"seed": seed, "history": h}))
+    seen = set()
+    uniq = []
+    for v in sorted(violations, key=lambda v: len(v.replay["history"])):
+        if v.key not in seen:
+            seen.add(v.key)
+            uniq.append(v)
+    cov = {
+        "states": total_states, "transitions": total_trans, "traces_validated_against_impl": total_trans,
+        "samples": samples, "exhaustive": exhaustive, "distinct_outcomes": outcomes, "runs": runs,
+        "plain_send_probes": total_trans, "witnesses": witnesses, "witness_fates_total": fates_total,
+        "tick_seconds": TICK, "burst": BURST, "queue_bound": QUEUE_BOUND,
+        "explanation": "BFS over event histories of a real node whose TunnelCommunity, anonymized overlay and plain overlay "
+                       "share one TunnelEndpoint(SimEndpoint), with real relay/exit nodes; every transition is executed on "
+                       "the implementation (macro step to network quiescence) and judged on the wire and on the arguments "
+                       "of send_data; after every transition a plain-overlay send is probed in the reached state. "
+                       "distinct_outcomes counts distinct (situation, raw kinds, send_data circuit classes, exit kinds, "
+                       "queue length) observations.",
+    }
+    return core.Report(LEVEL, cov, uniq, [
+        "N's receive-side listener table is normalised (TunnelEndpoint does not forward remove_listener, which leaves the "
+        "TunnelCommunity registered next to its crypto endpoint: a C11 matter); the send path is the library's own",
+        "the burst event is skipped while the tunnel community is attached and no suitable circuit exists in any state "
+        "(every queued send would start another circuit); the single send covers that situation",
+        "build events are bounded per run (max_circuits_started_by_build_events); circuits the endpoint starts itself are not",
+        "states are merged without the random module's state: it only picks circuit ids, cache identifiers and the first hop "
+        "among equally used relays, none of which the oracle reads",
+        "delivery is FIFO to quiescence inside a step (no loss, no reordering): C04/C09 cover faults",
+        "inbound delivery (notify_listeners(from_tunnel)) and overlays on an endpoint that is not a TunnelEndpoint are not "
+        "part of the statement's send-side claim and are not judged",
+        "order of queued datagrams on flush is not judged (the statement promises none)",
+        "crypto primitives (ipv8_rust_tunnels) trusted; PythonCryptoEndpoint only",
+    ])
 
 
 def replay(ctx: core.Ctx, data: dict) -> list:
-    raise NotImplementedError
+    viol, _, _ = run_history(data["seed"], [tuple(e) for e in data["history"]])
+    out, seen = [], set()
+    for k, what in viol:
+        if k not in seen:
+            seen.add(k)
+            out.append(core.Violation(k, what))
+    return out
